@@ -24,6 +24,8 @@ pub enum Mode {
     /// dies on the next message it receives (after receiving it)
     CloseOnMessage,
     Slow,
+    /// refuses new connections, established sessions stay alive
+    RefuseNew,
 }
 
 #[derive(Clone, Debug, Serialize, Deserialize)]
@@ -41,6 +43,10 @@ pub enum Step {
     TxnHangMidReply(u8, u8),
     /// wait for bans to expire (only generated with ban_time = 1)
     Sleep,
+    /// a client opens a transaction with role replica on the shard and keeps it open until the end of the history
+    HoldTxn(u8),
+    /// the replica on which the latest held transaction runs starts refusing new connections (its sessions stay alive)
+    RefuseNewOnHeld,
 }
 
 #[derive(Clone, Debug, Serialize, Deserialize)]
@@ -75,13 +81,13 @@ impl Part for WirePart {
         true
     }
     fn rule(&self) -> String {
-        "1..2 shards, each with or without a primary, 0..4 replicas on distinct loopback addresses, random or least-outstanding load balancing, healthcheck_delay 0 or 60 s, healthcheck_timeout 150 ms, connect_timeout 200 ms, statement_timeout 0 or 300 ms, ban_time 1 or 60 s; histories of 3..14 steps over {set a replica's fault mode: up / accept-and-close / hang at start-up / hang at query / die on the next message / slow, admin BAN host secs (replica or the primaries' host), UNBAN host, client transaction on a shard with role any|replica|primary (read or write), a statement whose reply stalls after 9 kB, sleep past a short ban}; with ban_time 1 s, half of the histories end with an expiry probe (everything up, bans left to expire, then 26..60 replica-role transactions per shard). The ban list is sampled through SHOW BANS before and after every transaction (observation-driven model). Oracle: the primary never appears in SHOW BANS; a replica enters the ban list only if it was faulty or admin-banned and leaves it only by UNBAN, expiry or the all-replicas-of-its-shard-banned rule; no tagged statement reaches a replica that was certainly banned while another replica of the shard could not have been banned; a transaction with a usable, unbanned candidate is served without error; when every replica of the shard is banned the next checkout is served by one of them; a replica that breaks mid-statement costs that one transaction and is then banned; refusals and failovers complete within candidates x timeouts + 2 s, never blocking indefinitely; after the expiry probe every replica of the shard has received at least one statement (a ban ends after ban_time, also under least-outstanding balancing). Non-trivial = a fault active during a transaction that had an alternative candidate".into()
+        "1..2 shards, each with or without a primary, 0..4 replicas on distinct loopback addresses, random or least-outstanding load balancing, healthcheck_delay 0 or 60 s, healthcheck_timeout 150 ms, connect_timeout 200 ms, statement_timeout 0 or 300 ms, ban_time 1 or 60 s; histories of 3..14 steps over {set a replica's fault mode: up / accept-and-close / hang at start-up / hang at query / die on the next message / slow / refuse new connections while keeping the established ones, admin BAN host secs (replica or the primaries' host), UNBAN host, client transaction on a shard with role any|replica|primary (read or write), a statement whose reply stalls after 9 kB, sleep past a short ban, a transaction held open on a replica until the end, that replica starting to refuse new connections}; with ban_time 1 s, half of the histories end with an expiry probe (everything up, bans left to expire, then 26..60 replica-role transactions per shard). The ban list is sampled through SHOW BANS before and after every transaction (observation-driven model). Oracle: the primary never appears in SHOW BANS; a replica enters the ban list only if it was faulty or admin-banned and leaves it only by UNBAN, expiry or the all-replicas-of-its-shard-banned rule; no tagged statement reaches a replica that was certainly banned while another replica of the shard could not have been banned; a transaction with a usable, unbanned candidate is served without error; when every replica of the shard is banned the next checkout is served by one of them; a replica that breaks mid-statement costs that one transaction and is then banned; a transaction that is served only after a connect timeout's worth of waiting leaves a faulty candidate banned; refusals and failovers complete within candidates x timeouts + 2 s, never blocking indefinitely; after the expiry probe every replica of the shard has received at least one statement (a ban ends after ban_time, also under least-outstanding balancing). Non-trivial = a fault active during a transaction that had an alternative candidate".into()
     }
     fn cases(&self, tier: Tier) -> u64 {
         tier.pick(880, 8_000)
     }
     fn strategy(&self, _tier: Tier) -> BoxedStrategy<Case> {
-        let mode = prop_oneof![3 => Just(Mode::Up), 3 => Just(Mode::Down), 2 => Just(Mode::HangStartup), 2 => Just(Mode::HangQuery), 2 => Just(Mode::CloseOnMessage), 1 => Just(Mode::Slow)];
+        let mode = prop_oneof![3 => Just(Mode::Up), 3 => Just(Mode::Down), 2 => Just(Mode::HangStartup), 2 => Just(Mode::HangQuery), 2 => Just(Mode::CloseOnMessage), 1 => Just(Mode::Slow), 2 => Just(Mode::RefuseNew)];
         let step = prop_oneof![
             4 => (0u8..4, mode).prop_map(|(r, m)| Step::Fault(r, m)),
             3 => (0u8..4, prop_oneof![Just(1u8), Just(30u8)]).prop_map(|(r, s)| Step::Ban(r, s)),
@@ -91,12 +97,21 @@ impl Part for WirePart {
             9 => (0u8..2, 0u8..3, prop::bool::weighted(0.3)).prop_map(|(s, r, w)| Step::Txn(s, r, w)),
             1 => (0u8..2, 0u8..2).prop_map(|(s, r)| Step::TxnHangMidReply(s, r)),
             1 => Just(Step::Sleep),
+            1 => (0u8..2).prop_map(Step::HoldTxn),
+            1 => Just(Step::RefuseNewOnHeld),
         ];
         (1u8..=2, any::<bool>(), prop_oneof![1 => 0u8..=4, 1 => Just(4u8), 1 => Just(2u8)], any::<bool>(), any::<bool>(), any::<bool>(), prop::bool::weighted(0.3), prop_oneof![Just(1u8), Just(2u8), Just(4u8)], prop::collection::vec(step, 3..15), prop::bool::weighted(0.5))
             .prop_map(|(shards, primary, replicas, loc, healthcheck_delay_zero, statement_timeout, ban_time_short, workers, steps, expiry_probe)| {
                 // every shard needs at least one server
                 let primary = primary || replicas < shards;
-                let steps = steps.into_iter().filter(|s| ban_time_short || !matches!(s, Step::Sleep)).collect();
+                let mut steps: Vec<Step> = steps.into_iter().filter(|s| ban_time_short || !matches!(s, Step::Sleep)).collect();
+                // make sure the interesting history occurs in a fifth of the cases: a replica whose only open connection is held
+                // by a transaction stops accepting connections, then replica-role transactions follow
+                if replicas >= 2 && workers != 4 && steps.len() % 5 == 0 {
+                    let at = steps.len() / 2;
+                    let block = vec![Step::HoldTxn(0), Step::RefuseNewOnHeld, Step::Txn(0, 1, false), Step::Txn(0, 1, false), Step::Txn(0, 0, false), Step::Txn(0, 1, false)];
+                    steps.splice(at..at, block);
+                }
                 Case { shards, primary, replicas, loc, healthcheck_delay_zero, statement_timeout, ban_time_short, workers, steps, expiry_probe: expiry_probe && ban_time_short }
             })
             .boxed()
@@ -212,6 +227,10 @@ async fn run_case(c: &Case, ctx: &mut WorkerCtx) -> Outcome {
     // lazy) and then still counts for the pooler's all-replicas-banned rule
     let mut stale: HashSet<usize> = HashSet::new();
     let mut cid = 0u32;
+    // clients that keep a transaction open on a replica: (client, replica index)
+    let mut holders: Vec<(crate::cli::Cli, usize)> = vec![];
+    let lag = wire::LagMonitor::start(Instant::now());
+    let lag_t0 = Instant::now();
 
     macro_rules! bail {
         ($sig:expr, $d:expr) => {{
@@ -302,6 +321,7 @@ async fn run_case(c: &Case, ctx: &mut WorkerCtx) -> Outcome {
                         mock.set_fault(Fault::Up);
                         mock.set_slow(60);
                     }
+                    Mode::RefuseNew => mock.set_fault(Fault::Down),
                 }
                 if !matches!(m, Mode::Up | Mode::Slow) {
                     ever_faulty[r] = true;
@@ -378,6 +398,53 @@ async fn run_case(c: &Case, ctx: &mut WorkerCtx) -> Outcome {
                 tokio::time::sleep(Duration::from_millis(2300)).await;
                 observe!(format!("step {} sleep", si), none, None::<usize>);
             }
+            Step::HoldTxn(sh) => {
+                let shard = *sh as usize % nsh;
+                // (one held transaction per history: with pool_size 2 a second one could exhaust a replica's pool, and a
+                // checkout that times out on an exhausted pool gets that healthy replica banned - pgcat's behaviour, not at issue)
+                if reps_of(shard).is_empty() || !holders.is_empty() {
+                    continue;
+                }
+                cid += 1;
+                let mut cli = match env.client(cid, "u", "db", "pw", &[]).await {
+                    Ok(c) => c,
+                    Err(e) => bail!("login-failed", format!("step {}: {}", si, e)),
+                };
+                let mut ok = true;
+                for cmd in [format!("SET SHARD TO '{}'", shard), "SET SERVER ROLE TO 'replica'".to_string()] {
+                    let (_m, e) = cli.simple(&cmd, wire::T_REPLY).await;
+                    ok &= matches!(e, ReadEnd::Ready(_));
+                }
+                let t = cli.tag();
+                let (m, e) = cli.simple(&format!("{} BEGIN", t.render()), Duration::from_secs(6)).await;
+                ok &= matches!(e, ReadEnd::Ready(b'T')) && crate::cli::errors(&m).is_empty();
+                let on: Vec<usize> = env.log().iter().filter_map(|ev| match &ev.kind {
+                    EvKind::Rx { tags, .. } if tags.contains(&t) => Some(ev.server),
+                    _ => None,
+                }).collect();
+                // (bans that happened during this checkout are picked up by the next observation)
+                for r in reps_of(shard) {
+                    if !matches!(mode[r], Mode::Up | Mode::Slow) {
+                        ever_faulty[r] = true;
+                    }
+                }
+                let all_may: Vec<usize> = if reps_of(shard).iter().all(|r| banned.contains_key(r) || stale.contains(r) || ever_faulty[*r]) { vec![shard] } else { vec![] };
+                observe!(format!("step {} held transaction", si), all_may, None::<usize>);
+                if ok && on.len() == 1 && on[0] >= np {
+                    holders.push((cli, on[0] - np));
+                    o.label("held_transaction_on_replica");
+                }
+            }
+            Step::RefuseNewOnHeld => {
+                if let Some((_, r)) = holders.last() {
+                    let r = *r;
+                    env.mocks[np + r].set_slow(0);
+                    env.mocks[np + r].set_fault(Fault::Down);
+                    ever_faulty[r] = true;
+                    mode[r] = Mode::RefuseNew;
+                    o.label("replica_refuses_new_connections_while_held");
+                }
+            }
             Step::Txn(..) | Step::TxnHangMidReply(..) => {
                 let (shard, role, write, hang_mid) = match st {
                     Step::Txn(s, r, w) => (*s as usize % nsh, *r % 3, *w, false),
@@ -437,6 +504,8 @@ async fn run_case(c: &Case, ctx: &mut WorkerCtx) -> Outcome {
                 let limit = Duration::from_millis(n_cand as u64 * 2 * 250 + if c.statement_timeout { 350 } else { 0 } + 2000);
                 let (m, e) = cli.read_until_ready(limit + Duration::from_secs(3)).await;
                 let took = started.elapsed();
+                let started_us = started.duration_since(lag_t0).as_micros() as u64;
+                let harness_lag_ms = lag.lag_ms_between(started_us, started_us + took.as_micros() as u64);
                 let served_on: Vec<usize> = env.log().iter().filter_map(|ev| match &ev.kind {
                     EvKind::Rx { tags, .. } if tags.contains(&t) => Some(ev.server),
                     _ => None,
@@ -490,6 +559,22 @@ async fn run_case(c: &Case, ctx: &mut WorkerCtx) -> Outcome {
                     o.label("stalled_mid_reply");
                     continue;
                 }
+                // a transaction that was served but only after a connect-timeout's worth of waiting: a candidate failed its
+                // checkout, so that candidate (a replica: the primaries are never faulty here) must now be banned - otherwise every
+                // later checkout pays the same timeout again
+                let waited_ms = (took.as_millis() as u64).saturating_sub(harness_lag_ms);
+                // (when every replica of the shard may be banned the unban-all rule can lift the new ban again within the same checkout)
+                let stalled_but_served = ok_reply && !c.ban_time_short && !all_may_be_banned && waited_ms >= 195 && !cand_reps.iter().any(|r| mode[*r] == Mode::Slow);
+                if stalled_but_served {
+                    let suspects: Vec<usize> = cand_reps.iter().cloned().filter(|r| (ever_faulty[*r] || !matches!(mode[*r], Mode::Up | Mode::Slow)) && !banned_before.contains(r)).collect();
+                    if !suspects.is_empty() {
+                        observe!(format!("step {} (served after a stall)", si), unban_all_shards.clone(), None::<usize>);
+                        o.label("served_after_checkout_stall");
+                        if suspects.iter().all(|r| !banned.contains_key(r)) {
+                            bail!(&format!("stalled-on-replica-not-banned:{}", class), format!("step {}: the transaction was served only after {} ms (harness lag {} ms; connect_timeout 200 ms), so a candidate failed its checkout, yet none of the faulty candidates {:?} (modes {:?}) is in SHOW BANS afterwards", si, took.as_millis(), harness_lag_ms, suspects, mode));
+                        }
+                    }
+                }
                 if !ok_reply {
                     // a candidate replica that is (or was) faulty may have cost this one transaction (dead or hung
                     // pooled connection, death mid-statement); a banned broken replica can come back through the
@@ -518,6 +603,12 @@ async fn run_case(c: &Case, ctx: &mut WorkerCtx) -> Outcome {
             }
         }
     }
+    for (mut h, _) in holders.drain(..) {
+        let _ = h.simple("COMMIT", Duration::from_secs(2)).await;
+        h.send(&proto::terminate()).await;
+        h.close();
+    }
+    lag.stop();
     // ---- expiry epilogue: "a ban ends after ban_time". Everything is brought up, stale pooled connections are flushed, the
     // 1-second bans are left to expire, and then replica-role transactions must reach every replica of the shard again
     // (load balancing picks among unbanned candidates at random when the pool is idle: a replica that is never chosen in
